@@ -59,6 +59,19 @@ def mk_path(segs):
     return se.Path(*out) if len(out) != 1 else se.Path(out[0])
 
 
+CTOR_FORMS = ["pos", "pos", "kw", "dict"]
+
+
+def path_from_text(text, form="pos"):
+    """Path from path data through each documented constructor form: Path(text), Path(d=text), Path({'d': text})"""
+    se = L()
+    if form == "kw":
+        return se.Path(d=text)
+    if form == "dict":
+        return se.Path({"d": text})
+    return se.Path(text)
+
+
 def path_text_of(segs, fmt="%.12g"):
     """Harness' own serialisation of plain segments to absolute path data (for the parse route)."""
     parts = []
